@@ -837,23 +837,42 @@ def r5_who(chk, fx):
 
 
 def r6_rpc(chk, fx):
-    b = fx.user_coroutine("netconf::session::Session::<T>::rpc")
-    new = b.calls_to("Operation::new", user_only=True)
-    send = b.calls_to("ClientMsg::send", user_only=True)
-    if len(new) != 1 or len(send) != 1:
-        raise F.AnchorLost("Session::rpc: O::new / send sites")
-    ok = b.ok_dominates(new[0], send[0].bb)
-    chk.instance("C09/R6", "Session::rpc sends only through the success edge of O::new(&self.context, build_fn)", b.name, send[0].loc(),
-                 holds=ok, key="C09/R6 Session::rpc send-not-okdom-by-O::new")
-    org = b.backward_origins(F.op_base(new[0].args[0]), through_call=lambda c: False)
-    ok = any(o["k"] == "place" and (o["pl"].get("p") or [])[-1:] == [".context"] for o in org)
-    chk.instance("C09/R6", "the context given to O::new is the session's own", b.name, new[0].loc(), holds=ok,
-                 key="C09/R6 Session::rpc context-origin")
-    # the request sent is built from that operation
-    t = b.forward_taint([new[0].dest["l"]], through_call=lambda c: c.is_fn(*F.PASS_THROUGH) or c.is_fn("Try::branch"))
-    ok = F.op_base(send[0].args[0]) in b.forward_taint(list(t), through_call=lambda c: False)
-    chk.instance("C09/R6", "the request put on the wire is the one O::new validated", b.name, send[0].loc(), holds=ok,
-                 key="C09/R6 Session::rpc sent-request-origin")
+    """Session::rpc by path exploration: the request is put on the wire only when O::new(&self.context, build_fn) returned Ok(operation), and what is
+    sent is built from that very operation; when validation fails nothing is sent and the error is returned."""
+    un = "netconf::session::Session::<T>::rpc::{closure#0}::{closure#0}"
+    if un not in fx.thir:
+        raise F.AnchorLost("Session::rpc user coroutine")
+    chk.analysed(un)
+
+    def hook(fn, args, node, interp):
+        s2 = T.short(fn, 2)
+        if s2 == "Operation::new":
+            interp.trace.append(("call", fn, tuple(args), node.get("sp")))
+            return ("sym", "VALIDATED")
+        if s2 == "Mutex::lock":
+            return ("sym", "GUARD")
+        if s2 == "ClientMsg::send":
+            interp.trace.append(("call", fn, tuple(args), node.get("sp")))
+            return ("term", "async-ready", (("sym", "SENT"),))
+        return None
+    it = A.Interp(fx, hook=hook, crates=("netconf",), max_paths=3000, no_inline=("Session::<T>::recv", "ClientMsg::send", "Operation::new"))
+    it.model_iterators = False
+    paths = it.explore(un)
+    news = [p for p in paths if p.calls("Operation::new")]
+    if not news:
+        raise F.AnchorLost("Session::rpc: O::new call")
+    bad_new = [p for p in paths if p.assume.get("variant:«VALIDATED»") == "Err" or "Ok" in p.assume.get("notvariant:«VALIDATED»", ())]
+    good_new = [p for p in paths if p.assume.get("variant:«VALIDATED»") == "Ok"]
+    sent_without = [p for p in paths if p.calls("ClientMsg::send") and p not in good_new]
+    ok = bool(bad_new) and bool(good_new) and not sent_without and all(A.is_res(p.ret) and p.ret[2] == "Err" and not p.calls("ClientMsg::send") for p in bad_new)
+    chk.instance("C09/R6", "Session::rpc sends only through the success edge of O::new(&self.context, build_fn)", un, None, holds=ok,
+                 key="C09/R6 Session::rpc send-not-okdom-by-O::new")
+    ctx_ok = all(A.vstr(c[2][0]).endswith(".context") and "self" in A.vstr(c[2][0]) for p in news for c in p.calls("Operation::new"))
+    chk.instance("C09/R6", "the context given to O::new is the session's own", un, None, holds=ctx_ok, key="C09/R6 Session::rpc context-origin")
+    op = ("payload", ("sym", "VALIDATED"), "Ok", "0")
+    sends = [c for p in good_new for c in p.calls("ClientMsg::send")]
+    ok = bool(sends) and all(A.mentions(c[2][0], lambda x: x == op) for c in sends)
+    chk.instance("C09/R6", "the request put on the wire is the one O::new validated", un, None, holds=ok, key="C09/R6 Session::rpc sent-request-origin")
 
 
 # ---------------------------------------------------------------------------------------------
